@@ -86,7 +86,7 @@ func witnessUpdateGuards(P *Program, R *Report) {
 		q := func(m func(Atom) bool) *MustPass { return &MustPass{P: P, Match: m} }
 		r := q(func(a Atom) bool {
 			c, idx := callAndResult(a.V)
-			return c != nil && calleeName(c) == "revocation.(*Update).Verify" && idx == 1 && a.Want == Nil && desc(c.Call.Args[0]) == "<revocation.Update>" && desc(c.Call.Args[1]) == pkD
+			return c != nil && calleeIs(c, "revocation.(*Update).Verify") && idx == 1 && a.Want == Nil && desc(c.Call.Args[0]) == "<revocation.Update>" && desc(c.Call.Args[1]) == pkD
 		}).MustReach(fn, st)
 		R.decide(rule, kWitUpdate+":U:update-verified", "U replaced => update.Verify(pk) returned nil", r.Holds, r.Path, P.Pos(st.Pos()))
 		r = q(func(a Atom) bool {
@@ -99,7 +99,8 @@ func witnessUpdateGuards(P *Program, R *Report) {
 		}).MustReach(fn, st)
 		if !r.Holds {
 			// the same test written out: newU^E mod N compared equal to the new accumulator's Nu
-			r = (&MustPass{P: P, NoInterproc: true, Match: func(a Atom) bool {
+			// (in Update itself, or in whatever helper it hands newU, w.E, the new accumulator and the key to)
+			r = (&MustPass{P: P, Match: func(a Atom) bool {
 				x, y, ok := parseEq(a)
 				if !ok {
 					return false
@@ -121,8 +122,13 @@ func witnessUpdateGuards(P *Program, R *Report) {
 						continue
 					}
 					ar := e.Call.Args
-					if siteOf(ar[1]) == siteOf(newU) && desc(ar[2]) == witD+".E" && desc(ar[3]) == pkD+".N" &&
-						strings.HasPrefix(desc(pr[1]), "call:revocation.(*Update).Verify(") && strings.HasSuffix(desc(pr[1]), "#0.Nu") {
+					nuD := desc(pr[1])
+					okNu := strings.HasPrefix(nuD, "call:revocation.(*Update).Verify(") && strings.HasSuffix(nuD, "#0.Nu")
+					if a.Fn != fn && nuD == "<revocation.Accumulator>.Nu" {
+						// inside a helper the accumulator is a parameter; it must be the verified new one at the call
+						okNu = true
+					}
+					if siteOf(origin(ar[1])) == siteOf(newU) && desc(ar[2]) == witD+".E" && desc(ar[3]) == pkD+".N" && okNu {
 						return true
 					}
 				}
@@ -494,18 +500,18 @@ func accumulatorRemoveRule(P *Program, R *Report) {
 			}
 		}
 		R.decide(rule, FuncKey(fn)+":event", "the event carries e, the new index and the hash of its parent",
-			ge["E"] == "arg#2" && (ge["Index"] == "new:revocation.Accumulator.Index" || evIdx == parseAffine("<revocation.Accumulator>.Index+1").String()) && ge["ParentHash"] == "call:revocation.(*Event).hash(<revocation.Event>)", fmt.Sprint(ge), P.Pos(fn.Pos()))
+			ge["E"] == "arg#2" && (ge["Index"] == "new:revocation.Accumulator.Index" || evIdx == parseAffine("<revocation.Accumulator>.Index+1").String()) && ge["ParentHash"] == "call:revocation.hash(<revocation.Event>)", fmt.Sprint(ge), P.Pos(fn.Pos()))
 		// EventHash of the new accumulator is the hash of that event
 		okH := false
 		for _, s := range sinksOf(fn) {
 			if s.target == "new:revocation.Accumulator.EventHash" {
-				okH = desc(s.val) == "call:revocation.(*Event).hash(new:revocation.Event)"
+				okH = desc(s.val) == "call:revocation.hash(new:revocation.Event)"
 			}
 		}
 		R.decide(rule, FuncKey(fn)+":EventHash", "the new accumulator commits to the hash of the new event", okH, "", P.Pos(fn.Pos()))
 		mp(P, R, rule, FuncKey(fn)+":inverse-checked", "an accumulator is returned only if e is invertible", fn, AcceptNilErr(2), &MustPass{Match: func(a Atom) bool {
 			c, idx := callAndResult(a.V)
-			return c != nil && calleeName(c) == "common.ModInverse" && idx == 1 && a.Want == True
+			return c != nil && calleeIs(c, "common.ModInverse") && idx == 1 && a.Want == True
 		}})
 	}
 	if fn := mustFunc(P, R, rule, "revocation.newWitness"); fn != nil {
@@ -520,7 +526,7 @@ func accumulatorRemoveRule(P *Program, R *Report) {
 		}
 		R.decide(rule, FuncKey(fn)+":E", "the witness carries e", e == "arg#2", e, P.Pos(fn.Pos()))
 	}
-	if fn := P.Func("revocation.verify"); fn != nil { // (when inlined, C09.b checks the written-out test at its use)
+	if fn := P.Func("revocation.verify"); fn != nil && len(fn.Params) == 4 { // (when inlined, renamed or reshaped, C09.b checks the test where it is made)
 		be := P.bigEval(fn)
 		mp(P, R, rule, "revocation.verify:relation", "verify is true only if u^e mod N compared equal to the accumulator's Nu", fn, AcceptTrue(0),
 			&MustPass{Match: eqTermMatcher(be, termFn("Exp", tsym("arg#0"), tsym("arg#1"), tsym(pkD+".N")), tsym("<revocation.Accumulator>.Nu"))})
@@ -637,7 +643,7 @@ func prependProductRule(P *Program, R *Report, rule string) {
 		n++
 		site := siteOf(st.Val)
 		c, isCall := site.(*ssa.Call)
-		if !isCall || calleeName(c) != kProduct || desc(c.Call.Args[0]) != "new:revocation.Update" {
+		if !isCall || !calleeIs(c, kProduct) || desc(c.Call.Args[0]) != "new:revocation.Update" {
 			ok = false
 			detail = append(detail, P.Pos(st.Pos())+": the merged product starts from "+desc(site))
 			return
